@@ -438,4 +438,40 @@ def run(ctx):
         run.instance(R8, {"fn": "foreign::finalize_tx", "obligation": "Ok is returned only after delete_private_context (both arms)"}, held=h)
         if not h:
             run.finding(Finding(R8, fz, "finalize_tx can return Ok without deleting the signing context", site=ffz.loc()))
+    R9 = "C12.R9"
+    run.rule(R9, "secret-bearing values are never formatted (logged, printed, put into error texts)", floor=1)
+    # types that (transitively) hold a secret type
+    bearing = set(SECRET_TYPES)
+    changed = True
+    while changed:
+        changed = False
+        for a, ad in db.adts.items():
+            if a in bearing or not a.startswith("grin_wallet"):
+                continue
+            for v in ad.get("variants", []):
+                for f_ in v["fields"]:
+                    if (a, f_["name"]) in OUTWARD_ALLOW:
+                        continue
+                    if any(sub in bearing for sub in f_["adts"]):
+                        bearing.add(a)
+                        changed = True
+    nfmt = 0
+    hits = []
+    for fid, f in db.fns.items():
+        if non_production(fid):
+            continue
+        for b, t in f.calls():
+            n = t.get("f") or ""
+            if n.startswith("core::fmt::rt::Argument") and "::new_" in n:
+                nfmt += 1
+                ga = (t.get("ga") or [""])[0]
+                core_ty = ga.replace("&", "").replace("mut ", "").strip()
+                import re as _re
+                names = set(_re.findall(r"[A-Za-z_][A-Za-z0-9_]*(?:::[A-Za-z_][A-Za-z0-9_]*)+", core_ty))
+                bad = [x for x in bearing if x in names]
+                if bad and t.get("sp") and not any(m in (f.mac or []) for m in ()):
+                    hits.append((fid, c.site_of(f, b), sorted(bad)[0]))
+    run.instance(R9, {"obligation": "no fmt::Argument is built over a secret-bearing type", "format_arguments_examined": nfmt, "secret_bearing_types": len(bearing)}, held=not hits)
+    for fid, site, ty in hits:
+        run.finding(Finding(R9, fid, "a value of secret-bearing type %s is formatted" % pp.short(ty), site=site))
     run.not_decided += ["quality of the RNG; that no two nonces ever collide", "recoverability of plaintext from arbitrary emitted byte strings (runtime observation)", "crash points between file operations as executions (R5 gives the order constraints only)"]
